@@ -333,17 +333,24 @@ def _arg_harnesses():
             return {"check": "c20.arg", "args": enc({"typ": typ, "text": "".join(chr(vals[f"d{i}"]) for i in range(n))})}
         hs.append(Harness(id=f"C20/arg/{typ}/{n}", vars=vars, pre=pre, run=run, witness=witness, max_paths=20))
     # string-typed values of length 0..2 (length 0 is the explicit empty value `name:string=`), any printable ASCII character
-    for form in ("name:string=", "name="):
+    for form, envset in (("name:string=", False), ("name=", False), ("name:string=", True), ("name=", True)):
         for n in (0, 1, 2):
             Cs = [z3.Int(f"c{i}") for i in range(n)]
             vars = {f"c{i}": Cs[i] for i in range(n)} or {"dummy": z3.Int("dummy")}
             pre = [z3.And(c >= 32, c <= 126) for c in Cs]
 
-            def run(vals, form=form, n=n, Cs=Cs):
+            def run(vals, form=form, n=n, Cs=Cs, envset=envset):
                 raw = form + "".join(chr(vals[f"c{i}"]) for i in range(n))
                 text = mks(SStr, [z3.IntVal(ord(c)) for c in form] + Cs, raw) if n else form
+                # an environment variable named like the CEL variable must not override an explicit value (it is the documented
+                # fallback only for the form without `=`)
                 os.environ.pop("name", None)
-                kd, r = common.outcome(lambda: m.arg_type_value(text))
+                if envset:
+                    os.environ["name"] = "from-the-environment"
+                try:
+                    kd, r = common.outcome(lambda: m.arg_type_value(text))
+                finally:
+                    os.environ.pop("name", None)
                 if kd != "value":
                     return [Ob("C20/arg/string-value", z3.BoolVal(False), note=f"{type(r).__name__}: {r}"[:120])]
                 name, tdef, value = r
@@ -352,9 +359,9 @@ def _arg_harnesses():
                     (z3.And([g == c for g, c in zip(got, Cs)]) if n else z3.BoolVal(True))
                 return [Ob("C20/arg/string-value", ok, note=f"-a {form}<{n} characters> binds exactly that string (got {value!r})"[:160])]
 
-            def witness(vals, form=form, n=n):
-                return {"check": "c20.arg_string", "args": enc({"form": form, "text": "".join(chr(vals[f"c{i}"]) for i in range(n))})}
-            hs.append(Harness(id=f"C20/arg/{form}/{n}", vars=vars, pre=pre, run=run, witness=witness, max_paths=20))
+            def witness(vals, form=form, n=n, envset=envset):
+                return {"check": "c20.arg_string", "args": enc({"form": form, "text": "".join(chr(vals[f"c{i}"]) for i in range(n)), "envset": envset})}
+            hs.append(Harness(id=f"C20/arg/{form}/{n}/{'env' if envset else 'noenv'}", vars=vars, pre=pre, run=run, witness=witness, max_paths=20))
     return hs
 
 
